@@ -40,6 +40,12 @@ func (tf *TextField) HandleEvent(ev vaxis.Event, ph vxfw.EventPhase) (vxfw.Comma
 			cmd := tf.InsertStringAtCursor(ev.Text)
 			return tf.checkChanged(cmd, pre)
 		}
+		if ev.EventType == vaxis.EventPaste {
+			// Pasted control characters arrive as the keys they encode
+			// (a carriage return as Enter, 0x01 as Ctrl+a). They are
+			// part of the pasted text, not key presses
+			return nil, nil
+		}
 
 		// Cursor to Beginning of line
 		if ev.Matches('a', vaxis.ModCtrl) || ev.Matches(vaxis.KeyHome) {
